@@ -82,7 +82,7 @@ func (r *ReadBuffer) ReadBytes(n int) []byte {
 		return nil
 	}
 
-	if len(r.remaining) < n {
+	if n < 0 || len(r.remaining) < n {
 		r.err = ErrEOF
 		return nil
 	}
@@ -98,7 +98,7 @@ func (r *ReadBuffer) SkipBytes(n int) {
 		return
 	}
 
-	if len(r.remaining) < n {
+	if n < 0 || len(r.remaining) < n {
 		r.err = ErrEOF
 		return
 	}
